@@ -59,7 +59,7 @@ QE_FILE = "qe_errors.csv"
 # ------------------------------------------------------------------------------------------------
 # configuration: every stochastic feature multi-valued
 # ------------------------------------------------------------------------------------------------
-def c12_config(rng, ndays, n_sites, n_sims, four=True):
+def c12_config(rng, ndays, n_sites, n_sims, four=True, keep_all=True):
     # start early enough in the year that the run stays inside one calendar year (make_config truncates
     # runs that would end in a trailing partial year, finding recorded under C06)
     start = W.date(rng.choice([2021, 2022, 2023]), rng.choice([1, 3, 5]), 1)
@@ -95,6 +95,7 @@ def c12_config(rng, ndays, n_sites, n_sims, four=True):
         progs.append(("P_fix", ["FIX", "OGI_FU2"]))
     cfg["programs"] = [{"name": n, "methods": ms} for n, ms in progs]
     cfg["baseline"] = "P_none"
+    cfg["keep_all"] = keep_all
     cfg["extra_inputs"] = {QE_FILE: "err\n" + "\n".join(str(x) for x in (-50, -25, 0, 25, 50, 100)) + "\n"}
     return cfg
 
@@ -656,10 +657,14 @@ def table_stage(ctx, repo=None):
 
 
 def config_plan(ctx):
-    """(ndays, n_sites, n_sims, four programs?)"""
+    """(ndays, n_sites, n_sims, four programs?, keep all program outputs?)"""
     if ctx.quick:
-        return [(150, 6, 1, True), (120, 5, 2, False), (200, 8, 2, True)]
-    return [(200, 8, 2, True), (180, 7, 1, True), (150, 6, 2, True), (200, 8, 3, False), (120, 5, 1, True)]
+        return [(150, 6, 1, True, True), (120, 5, 2, False, True), (200, 8, 2, True, True)]
+    # n_sims = 6/7: two batches of simulations (summary files merged across batches; with keep_all False the
+    # per-program files of the second batch are deleted after summarising, the summaries still compared)
+    return [(200, 8, 2, True, True), (180, 7, 1, True, True), (150, 6, 2, True, True), (200, 8, 3, False, True),
+            (120, 5, 1, True, True), (100, 5, 6, False, True), (100, 5, 7, True, False), (200, 8, 2, True, True),
+            (160, 6, 3, True, True)]
 
 
 def run(ctx):
@@ -679,8 +684,8 @@ def run(ctx):
     if tgt is not None and tgt not in {m["target"] for m in tables["sharedMutations"]}:
         ctx.disagree("effects-table:sharedMutations", {"direct": "equipment_constant", "container": tgt},
                      "not listed as mutated", f"grew from {len(d['before'])} to {len(d['after'])} entries in three calls")
-    for i, (ndays, n_sites, n_sims, four) in enumerate(config_plan(ctx)):
-        cfg = c12_config(ctx.rng, ndays, n_sites, n_sims, four)
+    for i, (ndays, n_sites, n_sims, four, keep_all) in enumerate(config_plan(ctx)):
+        cfg = c12_config(ctx.rng, ndays, n_sites, n_sims, four, keep_all)
         differential(ctx, cfg, tables, repo=repo, label=f"cfg{i}")
     ctx.assumptions.append("C12: effect analysis is syntactic (import-closure reachability, aliases through parameters not seen); "
                            "OS scheduling, multiprocessing pickling and float formatting are covered by the differential runs only")
